@@ -166,8 +166,27 @@ def run_port(case):
     lab.after_step.append(occupancy)
     # the next hop may read the port's occupancy the moment a packet is handed to it: that packet is not held any more
     out.on_put = lambda rec: occupancy(True)
+    states = []
+    lab.after_step.append(lambda: states.append((lab.env.now, port.byte_size, len(port.store.items), port.packets_received,
+                                                 port.packets_dropped)))
     lab.run()
     analyse(case, lab, port, entry, out, classes, case["exact"])
+    if case.get("also_detached"):
+        # the same arrivals at a port that has no next hop (out = None): transmitted packets leave the simulation; handing a packet
+        # on schedules nothing, so clock, occupancy, queue length and counters must agree with the first run after every step
+        lab2 = Lab(clause="C09.no_exception")
+        port2, entry2, _ = build(case, lab2)
+        port2.out = None
+        lab2.inject(entry2, case["wl"])
+        states2 = []
+        lab2.after_step.append(lambda: states2.append((lab2.env.now, port2.byte_size, len(port2.store.items), port2.packets_received,
+                                                       port2.packets_dropped)))
+        lab2.run()
+        if states != states2:
+            i = next((i for i, (a, b) in enumerate(zip(states, states2)) if a != b), min(len(states), len(states2)))
+            raise Violation("C09.honest_occupancy", f"without a next hop, step {i + 1}: (now, byte_size, waiting, received, dropped) = "
+                                                    f"{states2[i:i + 1]}, with a next hop {states[i:i + 1]}", "C09.honest_occupancy/no-next-hop")
+        classes.add("same arrivals without a next hop")
     nt = "accepted" in classes and "refused" in classes and \
         ("byte decision within 1 of the limit" in classes or "packet decision within 1 of the limit" in classes)
     if case["rate"] == 0:
@@ -210,6 +229,7 @@ def port_strategy(tier):
             "exact": st.just(exact), "rate": rate, "wl": wl,
             "eid": st.sampled_from(["p0", "sw.3", "x"]),
             "stale_stamps": st.lists(st.sampled_from([None, None, None, 0, 0.5, 1000]), max_size=12),
+            "also_detached": st.sampled_from([False, False, True]),
         }).flatmap(lambda d: lim.map(lambda l: dict(d, limit_bytes=l[0], qlimit=l[1])))
     return kgen.weighted([(build(True), 4), (build(False), 1)])
 
@@ -478,7 +498,8 @@ PROP = Property(
     facets=[
         Facet("port", port_strategy, run_port, quick=1500, thorough=8000, exhaustive=port_lattice,
               essential=["accepted", "refused", "byte decision within 1 of the limit", "packet decision within 1 of the limit",
-                         "rate 0", "no limit", "queued behind another packet", "packet arrives with an earlier stamp of this hop"]),
+                         "rate 0", "no limit", "queued behind another packet", "packet arrives with an earlier stamp of this hop",
+                         "same arrivals without a next hop"]),
         Facet("monitor", monitor_strategy, run_monitor, quick=1500, thorough=6000,
               essential=["sample while transmitting", "sample with a queue", "coincident sample judged set-valued"]),
         Facet("red", red_strategy, run_red, quick=600, thorough=4000,
